@@ -22,7 +22,7 @@ RULE = ('mode A: small concurrent programs (2-4 clients x 2-5 calls over 1-3 key
 DISTINCT = ('schedules_with_preemption_in_op', 'free_runs_with_overlap')
 REQUIRED = ('histories_checked', 'schedules_shared_object', 'schedules_separate_objects', 'lock_waits_observed',
             'file_backed_values', 'free_runs_threads', 'free_runs_processes', 'lru_stat_schedules', 'expired_present_keys',
-            'handles_opened_during_schedules', 'partly_consumed_iterations')
+            'handles_opened_during_schedules', 'partly_consumed_iterations', 'timeouts_under_commit_contention')
 ASSUMPTIONS = ('threads are interleaved at SQL-statement and value-file-operation granularity (where diskcache\'s '
                'critical sections begin and end); interleavings inside SQLite are reached only by free-running runs',
                'cross-process ordering uses CLOCK_MONOTONIC shared by processes of one machine')
@@ -499,6 +499,89 @@ def mode_b(dc, sc, res, rng, seed, topo, label, nclients, nops):
             return
 
 
+# ------------------------------------------------ mode C: commits kept waiting (rollback journal, retry off)
+def commit_contention(dc, sc, res, rng, label):
+    """A rollback-journal directory, reader threads that keep looking things up, and ONE writer whose calls give up at
+    once (timeout 0, retry off).  A call that raises Timeout - at BEGIN or, because a reader holds off the exclusive
+    lock, at COMMIT - has no effect: the key keeps the value of the last call that returned, and afterwards rows,
+    counters and files agree."""
+    from .. import observe
+    journal = rng.choice(['delete', 'truncate', 'persist'])
+    d = sc.new()
+    setup = dc.Cache(d, disk_min_file_size=T, sqlite_journal_mode=journal)
+    keys = ['a', 'b', 'c']
+    expected = {}
+    for k in keys[:2]:
+        expected[k] = stamp(9, len(expected), True)
+        setup.set(k, expected[k])
+    setup.close()
+    writer = dc.Cache(d, timeout=0)
+    look = dc.Cache(d, timeout=5)
+    stop = threading.Event()
+    errors = []
+
+    def reader():
+        c = dc.Cache(d, timeout=5)
+        try:
+            while not stop.is_set():
+                k = rng.choice(keys)
+                c.get(k)
+                k in c
+                len(c)
+        except Exception as exc:      # noqa: BLE001
+            errors.append(repr(exc))
+        finally:
+            c.close()
+    threads = [threading.Thread(target=reader) for _ in range(2)]
+    for th in threads:
+        th.start()
+    timeouts = 0
+    wit = {'label': label, 'journal_mode': journal}
+    try:
+        for n in range(60):
+            k = rng.choice(keys)
+            r = rng.random()
+            v = stamp(1, n, rng.random() < 0.7)
+            try:
+                if r < 0.6:
+                    writer.set(k, v)
+                    expected[k] = v
+                elif r < 0.8:
+                    if writer.add(k, v):
+                        expected[k] = v
+                else:
+                    writer.delete(k)
+                    expected.pop(k, None)
+            except dc.Timeout:
+                timeouts += 1
+            except Exception as exc:      # noqa: BLE001
+                res.violation('a write with retry off raised %s (%s) under commit contention' % (type(exc).__name__, exc),
+                              dict(wit, call=n))
+                return
+            got = look.get(k, 'MISS')
+            if got != expected.get(k, 'MISS'):
+                res.violation('after a write that %s, key %r reads %r, the last call that returned left %r' % (
+                    'raised Timeout' if timeouts else 'returned', k, str(got)[:20], str(expected.get(k, 'MISS'))[:20]),
+                    dict(wit, call=n, timeouts_so_far=timeouts))
+                return
+    finally:
+        stop.set()
+        for th in threads:
+            th.join(30)
+    res.count('evaluations')
+    res.count('commit_contention_runs')
+    res.count('timeouts_under_commit_contention', timeouts)
+    if errors:
+        res.violation('a reader raised under commit contention: %s' % errors[0], wit)
+    problems = observe.invariant(d)
+    warns = [str(w.message) for w in look.check()]
+    if problems or warns:
+        res.violation('after a run with %d timed-out writes: %r' % (timeouts, (problems + warns)[:3]), wit)
+    writer.close()
+    look.close()
+    sc.drop(d)
+
+
 def run_shard(tier, seed, shard, nshards, res):
     dc = common.use_repo()
     probe.install()
@@ -518,3 +601,6 @@ def run_shard(tier, seed, shard, nshards, res):
             mode_b(dc, sc, res, rng, seed * 100 + shard * 10 + i, topo,
                    'c05 B seed=%d shard=%d i=%d topo=%s' % (seed, shard, i, topo),
                    nclients=rng.randrange(3, 6), nops=rng.randrange(40, 90))
+        for i in range(2 if tier == 'quick' else 12):
+            rng = common.rng_for(seed, 'c05c', shard, i)
+            commit_contention(dc, sc, res, rng, 'c05 C seed=%d shard=%d i=%d' % (seed, shard, i))
